@@ -26,7 +26,7 @@ CHECKS = {
     "C04": ("E3-fault-enumerators", "fault_enumeration",
             "exhaustive crash-point x torn-write-prefix enumeration on the real write path, recovery compared with a reference model",
             "Each history is executed once with a recorder armed at every persistence step; the database is then recovered from every crash state (every step x every byte prefix of the write in flight; manifest records torn at every byte) and compared with model(acked) / model(acked + interrupted op); a post-recovery script and a second reopen must succeed; crash points of the recovery itself are enumerated one level deep.",
-            "Bounded: 46 (quick) / several hundred (thorough) histories of <= 5 ops on one table; crash model = ordered persistence with a torn in-flight write (directory-entry loss and reordering of unsynced writes not modelled); crash points are the instrumented steps.",
+            "Bounded: 52 (quick) / about 2 000 (thorough) histories of <= 9 ops on one table (incl. whole-table deletes, compaction to nothing, re-issued row-set ids); crash model = ordered persistence with a torn in-flight write (directory-entry loss and reordering of unsynced writes not modelled); crash points are the instrumented steps.",
             "DESIGN.md §3 E3, §4 C04"),
     "C05": ("E2-history-explorer", "model_checking",
             "bounded exhaustive lock-step differential exploration of statement histories, memory engine vs disk engine layouts",
